@@ -16,7 +16,9 @@ CHECKS = {
              "autosort calls on orderings of one step set and every admissible "
              "list after every admissible list (each pair from a pristine "
              "module state); reference order predicates "
-             "derived from the step metadata. Exhaustive, so this decides the "
+             "derived from the step metadata; apply through all five ways of "
+             "handing over the list (positional, keyword, deprecated keyword, "
+             "deprecated class). Exhaustive, so this decides the "
              "property for the shipped step set.",
         design_ref="DESIGN.md §2 C14",
         note="Trusts the decorator metadata (steps_required/steps_optional) "
@@ -58,7 +60,8 @@ CHECKS = {
              "/ triples (thorough) on a synthetic and recorded curves. "
              "Oracles: byte equality with a fresh curve, rejection "
              "predicate, raw-data digest. Pair/sequence quantifier is "
-             "covered completely for the request set.",
+             "covered completely for the request set (which contains two "
+             "pipelines whose segment switch falls on different samples).",
         design_ref="DESIGN.md §2 C06",
         note="Request set is finite and listed in the evidence; depth "
              "bound 2 (quick) / 3 (thorough).",
@@ -78,7 +81,9 @@ CHECKS = {
              "residual functions, rater, features) are enumerated over a "
              "grid with before/after digests; for the model/residual functions "
              "all call/edit sequences up to length 4 (5) on long-lived "
-             "parameter, abscissa and force objects are compared with fresh copies.",
+             "parameter, abscissa and force objects are compared with fresh copies; "
+             "step lists / option dictionaries handed over through the public "
+             "attributes, followed by every pair of later calls.",
         design_ref="DESIGN.md §2 C10",
         note="Alias structure is part of the canonical state; an edit "
              "counts only if the twin notices it (non-vacuity enforced, "
@@ -100,7 +105,10 @@ CHECKS = {
              "full sweep of all regressors x training sets x feature "
              "subsets x LDA flags runs over 12 representative states, and "
              "a rating table is recomputed in 3 interpreters with different "
-             "hash seeds.",
+             "hash seeds. Further drivers: a curve fitted with the plateau "
+             "search (refits changing only its settings), in-memory "
+             "training sets incl. one tuple kept by the caller for all "
+             "ratings of a history.",
         design_ref="DESIGN.md §2 C09",
         note="[0,10] demanded only for the averaging tree regressors "
              "without LDA; in-memory (X, y) training sets are exercised via "
@@ -220,7 +228,9 @@ CHECKS = {
              "length 1, empty) against a scalar literature reference; "
              "bit-exact baseline out of contact; truncated series vs the "
              "exact parametric Sneddon solution on 400 depths up to R; "
-             "documented constants.",
+             "documented constants; the shipped formulas again after a "
+             "user model with a clashing function name was wrapped / "
+             "registered / removed in the same process.",
         design_ref="DESIGN.md §2 C02",
         note="Continuum claim decided on the stated grid; excluded points "
              "where the documented formula is undefined are listed.",
@@ -237,7 +247,9 @@ CHECKS = {
              "orientation x translations, baseline shifts, modulus scales, "
              "continuity ladder, weighting distances; plus complete fits of "
              "the order-sensitive model on both segments and re-registration "
-             "of changed code under one key.",
+             "of changed code under one key; for shipped models also "
+             "abscissae that are locally unordered at the contact point "
+             "(every sample gets the force of its own abscissa value).",
         design_ref="DESIGN.md §2 C13",
         note="Bit-exact where the arithmetic is exact (dyadic), ulp-scaled "
              "tolerances elsewhere.",
@@ -334,7 +346,9 @@ CHECKS = {
              "just before it through relations (constant shift, zero at the "
              "estimated index, untouched outside the region, no jump, trend "
              "removed, single switch at the farthest point, strict "
-             "monotonicity, un-owned columns byte-identical).",
+             "monotonicity, un-owned columns byte-identical); the family "
+             "includes curves with all lengths scaled down to nm "
+             "indentations.",
         design_ref="DESIGN.md §2 C07",
         note="'Well-formed' is a predicate on the raw curve fixed up front.",
         technique="exhaustive bounded enumeration with relational "
@@ -351,7 +365,8 @@ CHECKS = {
              "scales, within one sample otherwise, stated accuracy on clean "
              "curves, documented fallback without exception; the "
              "Indentation-level entry point over pipeline histories agrees "
-             "with the estimator on the current force.",
+             "with the estimator on the current force; force arrays of "
+             "integer type (whole fN / pN) included.",
         design_ref="DESIGN.md §2 C08",
         note="Accuracy fractions are regression bounds per estimator and "
              "baseline class.",
@@ -367,7 +382,9 @@ CHECKS = {
              "flag combinations, written as a real training-set directory "
              "and loaded, against a row-wise reference; all rating vectors "
              "over 0..10 up to length 4 for the sample weights; container -> "
-             "export_training_set -> load_training_set round trips.",
+             "export_training_set -> load_training_set round trips, incl. "
+             "containers that are folders of rating files sharing curves "
+             "(expected rows from the stored objects).",
         design_ref="DESIGN.md §2 C15",
         note="Loads whose reference is undefined (a column with only +-inf) "
              "are counted, not judged.",
@@ -434,7 +451,7 @@ def build():
              "kind_free_text": "closure (fixpoint) search of small dictionary-like stores against a reference model"},
         ],
         "checks": checks,
-        "notes": "All checks run the real nanite code from /repo/src (no build step). Exit 0 = held, 1 = VIOLATION (every reported counterexample was re-executed and reproduced in a fresh interpreter), 2 = harness error (no verdict). known_findings.json lists genuine defects (fixed ones with their fix: commit). seeded/ holds 226 confirmed property-breaking changes with the checks' results (seeded/MATRIX.md); tools/seedtest.py re-runs them.",
+        "notes": "All checks run the real nanite code from /repo/src (no build step). Exit 0 = held, 1 = VIOLATION (every reported counterexample was re-executed and reproduced in a fresh interpreter), 2 = harness error (no verdict). known_findings.json lists genuine defects (fixed ones with their fix: commit). seeded/ holds 246 confirmed property-breaking changes with the checks' results (seeded/MATRIX.md); tools/seedtest.py re-runs them.",
         "not_applicable": [{"property_id": p, "reason": NA_REASON}
                            for p in ALL if p not in CHECKS],
     }
